@@ -110,6 +110,20 @@ func exec(line string) string {
 		switch w[0] {
 		case "cfg", "go":
 			return "ok"
+		case "sbvote": // canonical sign-bytes of a vote (chain id "c18")
+			h, _ := strconv.ParseInt(w[1], 10, 64)
+			rd, _ := strconv.ParseInt(w[2], 10, 64)
+			t, _ := strconv.Atoi(w[3])
+			tot, _ := strconv.Atoi(w[5])
+			dec := func(x string) []byte {
+				if x == "-" {
+					return nil
+				}
+				return unhex(x)
+			}
+			v := &types.Vote{Height: h, Round: rd, Type: byte(t), BlockID: types.BlockID{Hash: dec(w[4]), PartsHeader: types.PartSetHeader{Total: tot, Hash: dec(w[6])}},
+				ValidatorAddress: []byte("not signed"), ValidatorIndex: 7}
+			return string(types.SignBytes("c18", v))
 		case "wvarint":
 			i, _ := strconv.ParseInt(w[1], 10, 64)
 			buf, n, err := new(bytes.Buffer), new(int), new(error)
@@ -504,6 +518,23 @@ func main() {
 				}
 			}
 		}
+	}
+	// ------------------------------------------------------------ sign-bytes of votes against the model's text (theorem: injective)
+	for i := 0; i < r.Scale(300, 3000); i++ {
+		hx := func() string {
+			n := []int{0, 0, 1, 2, 20, 32, R.Intn(40)}[R.Intn(7)]
+			if n == 0 {
+				return "-"
+			}
+			return vh.Hex(R.Bytes(n))
+		}
+		num := func() int64 {
+			return []int64{0, 1, -1, 9, 10, 99, 100, 1 << 31, -(1 << 31), 1<<62 + 12345, -(1 << 62), int64(R.Intn(1000)), int64(R.Intn(1 << 30))}[R.Intn(13)]
+		}
+		op := fmt.Sprintf("sbvote %d %d %d %s %d %s", num(), num(), []int{0, 1, 2, 2, 255, R.Intn(256)}[R.Intn(6)], hx(), num(), hx())
+		res := do(op)
+		r.Count("sbvote")
+		r.Distinct("sbvote " + fmt.Sprint(len(res)/8))
 	}
 	// ------------------------------------------------------------ struct-level codecs (Go-side oracle only)
 	ks := kinds()
